@@ -937,4 +937,45 @@ EXTRA = [
     def is_stale(self, tile):""", """        return self.tile_mgr.cache.is_cached(tile, dimensions=dimensions)
 
     def is_stale(self, tile):""", 'C13.d'),
+    # ---------------------------------------------------------------- C17
+    M('M-C17a-no-coverage-gate-tile', 'mapproxy/source/tile.py', """        if self.coverage and not self.coverage.intersects(query.bbox, query.srs):
+            raise BlankImage()
+
+        _bbox, grid, tiles""", """        _bbox, grid, tiles""", 'C17.a'),
+    M('M-C17a-gate-after-fetch', 'mapproxy/source/wms.py', """        if self.coverage and not self.coverage.intersects(query.bbox, query.srs):
+            raise BlankImage()
+        try:
+            resp = self._get_map(query)""", """        try:
+            resp = self._get_map(query)
+            if self.coverage and not self.coverage.intersects(query.bbox, query.srs):
+                raise BlankImage()""", 'C17.a'),
+    M('M-C17a-no-resrange-gate', 'mapproxy/source/wms.py', """    def get_map(self, query):
+        if self.res_range and not self.res_range.contains(query.bbox, query.size,
+                                                          query.srs):
+            raise BlankImage()
+        if self.coverage and not self.coverage.intersects""", """    def get_map(self, query):
+        if self.coverage and not self.coverage.intersects""", 'C17.a'),
+    M('M-C17a-foreign-grid-tile', 'mapproxy/source/tile.py', "return self.client.get_tile(tile_coord, format=query.format)",
+      "return self.client.get_tile(getattr(query, 'tile_coord', tile_coord), format=query.format)", 'C17.a'),
+    M('M-C17a-info-no-gate', 'mapproxy/source/wms.py', """        if self.coverage and not self.coverage.contains(query.coord, query.srs):
+            return None
+        doc = self.client.get_info(query)""", """        doc = self.client.get_info(query)""", 'C17.a'),
+    M('M-C17b-preferred-first', 'mapproxy/srs.py', """            for preferred in self.target_proj[target]:
+                if preferred in available_src:
+                    return preferred""", """            for preferred in self.target_proj[target]:
+                return preferred""", 'C17.b'),
+    M('M-C17b-unsupported-direct', 'mapproxy/source/wms.py', """            if request_srs is None:
+                return self._get_transformed(query, format)""", """            if request_srs is None:
+                pass""", 'C17.b'),
+    M('M-C17c-format-not-negotiated', 'mapproxy/source/wms.py', """        if self.supported_formats and format not in self.supported_formats:
+            format = self.supported_formats[0]
+        if self.supported_srs:""", """        if self.supported_srs:""", 'C17.c'),
+    M('M-C17d-no-subquery', 'mapproxy/source/wms.py', """        if self.extent and not self.extent.contains(MapExtent(query.bbox, query.srs)):
+            return self._get_sub_query(query, format)
+        resp = self.client.retrieve(query, format)""", """        resp = self.client.retrieve(query, format)""", 'C17.d'),
+    M('M-C17e-forward-all-dims', 'mapproxy/client/wms.py', "req.params.update(query.dimensions_for_params(self.fwd_req_params))", "req.params.update(query.dimensions)", 'C17.e'),
+    E('E-C17e-local-first', 'mapproxy/client/wms.py', "req.params.update(query.dimensions_for_params(self.fwd_req_params))",
+      "fwd = query.dimensions_for_params(self.fwd_req_params)\n        req.params.update(fwd)", 'filtered dict bound to a local first'),
+    M('M-C17e-filter-inverted', 'mapproxy/layer.py', "return dict((k, v) for k, v in self.dimensions.items() if k.lower() in params)",
+      "return dict((k, v) for k, v in self.dimensions.items() if k.lower() not in params)", 'C17.e'),
 ]
